@@ -26,8 +26,12 @@ def storage_truth(st, ref):
         return z3.BoolVal(len(s["items"]) > 0)
     if k == "glist":
         return s["len"] > 0
-    if k == "deque":
+    if k in ("deque", "rlist", "rqueue"):
         return s["len"] > 0
+    if k == "zseq":
+        return z3.Length(s["seq"]) > 0
+    if k == "zset":
+        return s["nonempty"](st) if callable(s.get("nonempty")) else z3.Bool(f"nonempty#{ref.oid}")
     return T  # plain objects (no __bool__/__len__ in the code in scope)
 
 
